@@ -197,6 +197,32 @@ fn main() {
             if !w.is_empty() { println!("REPLAY violated oracle=manifest_type kind=altered-fragment-type-goes-unnoticed open accepted the manifest; {}", w.join("; ")); }
             else { println!("REPLAY holds oracle=manifest_type gets={}", o.gets.len()); }
         }
+        // C14 / C01: a table file written under one filter policy is read under another one (a setting
+        // changed between reopens): every key must still be found - a filter of the other policy must
+        // not be consulted
+        "policy_switch" | "policy_switch_back" => {
+            let mut model: std::collections::BTreeMap<Vec<u8>, Option<Vec<u8>>> = Default::default();
+            for op in &dbops {
+                match op {
+                    api::DbOp::Put(k, v) => { model.insert(k.clone(), Some(v.clone())); }
+                    api::DbOp::Delete(k) => { model.insert(k.clone(), None); }
+                    _ => {}
+                }
+            }
+            let keys: Vec<Vec<u8>> = model.keys().cloned().collect();
+            match api::run_policy_switch(&dbops, &keys, oracle == "policy_switch_back") {
+                Err(e) => println!("REPLAY violated oracle={} the database does not open: {}", oracle, e.replace('\n', " ")),
+                Ok(gets) => {
+                    let mut wrong = vec![];
+                    for (k, a) in keys.iter().zip(gets.iter()) {
+                        let e = match model.get(k) { Some(Some(val)) => format!("value:{}", hx(val)), _ => "notfound".to_string() };
+                        if *a != e { wrong.push(format!("get({}) returned {} expected {}", hex(k), a, e)); }
+                    }
+                    if wrong.is_empty() { println!("REPLAY holds oracle={} gets={}", oracle, gets.len()); }
+                    else { println!("REPLAY violated oracle={} {}", oracle, wrong.join("; ")); }
+                }
+            }
+        }
         "scan_damage" => {
             let mut model: std::collections::BTreeMap<Vec<u8>, Option<Vec<u8>>> = Default::default();
             for op in &dbops {
